@@ -160,6 +160,63 @@ theorem ge_trans (a b c : List α) :
   | eq => rfl
   | gt => rfl
 
+/-! ### the `<=` side and the mixed laws (session 4) -/
+
+/-- `<=` is transitive -/
+theorem le_trans (a b c : List α) :
+    opLe K a b = true → opLe K b c = true → opLe K a c = true := by
+  rw [le_iff_ge_swap, le_iff_ge_swap, le_iff_ge_swap]
+  intro h1 h2; exact ge_trans K c b a h2 h1
+
+/-- `<=` is total -/
+theorem le_total (a b : List α) : opLe K a b = true ∨ opLe K b a = true := by
+  rw [le_is_lex, le_is_lex, lexCmp_swap K.key a b]; cases lexCmp K.key a b <;> simp
+
+/-- antisymmetry up to `==`: `a >= b` and `b >= a` together are exactly `a == b` -/
+theorem ge_antisymm (a b : List α) : (opGe K a b && opGe K b a) = opEq K a b := by
+  rw [ge_is_lex, ge_is_lex, eq_is_lex, lexCmp_swap K.key a b]; cases lexCmp K.key a b <;> rfl
+
+/-- the same for `<=` -/
+theorem le_antisymm (a b : List α) : (opLe K a b && opLe K b a) = opEq K a b := by
+  rw [le_is_lex, le_is_lex, eq_is_lex, lexCmp_swap K.key a b]; cases lexCmp K.key a b <;> rfl
+
+/-- `a > b >= c` gives `a > c` (a strictly better value stays strictly better than anything the other
+    one is at least as good as) -/
+theorem gt_of_gt_of_ge (a b c : List α) :
+    opGt K a b = true → opGe K b c = true → opGt K a c = true := by
+  intro h1 h2
+  rw [gt_iff_lt_swap] at h1 ⊢
+  rw [ge_iff_not_lt] at h2
+  -- c < a, else a <= c, and with b < a: b < c … via ge_trans on the negations
+  cases h : opLt K c a with
+  | true => rfl
+  | false =>
+    have h3 : opGe K c a = true := by rw [ge_iff_not_lt, h]; rfl
+    have h4 : opGe K b c = true := by rw [ge_iff_not_lt]; exact h2
+    have h5 := ge_trans K b c a h4 h3
+    rw [ge_iff_not_lt, h1] at h5; cases h5
+
+/-- `a >= b > c` gives `a > c` -/
+theorem gt_of_ge_of_gt (a b c : List α) :
+    opGe K a b = true → opGt K b c = true → opGt K a c = true := by
+  intro h1 h2
+  rw [gt_iff_lt_swap] at h2 ⊢
+  cases h : opLt K c a with
+  | true => rfl
+  | false =>
+    have h3 : opGe K c a = true := by rw [ge_iff_not_lt, h]; rfl
+    have h5 := ge_trans K c a b h3 h1
+    rw [ge_iff_not_lt, h2] at h5; cases h5
+
+/-- `>=` is reflexive (a value never loses against itself in `f >= f_worst`) -/
+theorem ge_refl (a : List α) : opGe K a a = true := by
+  rw [ge_iff_not_lt, lt_irrefl]; rfl
+
+/-- `==`-equal vectors are interchangeable in `>` too -/
+theorem gt_congr (a a' b b' : List α) (h1 : opEq K a a' = true) (h2 : opEq K b b' = true) :
+    opGt K a b = opGt K a' b' := by
+  rw [gt_iff_lt_swap, gt_iff_lt_swap]; exact lt_congr K b b' a a' h2 h1
+
 /-! ### the winner of a selection does not depend on the order of comparison -/
 
 /-- the winner is a member that no member beats -/
